@@ -36,6 +36,7 @@ type Store struct {
 	log  []Entry
 	nw   int // write attempts so far (Put, Delete, Commit)
 	fail map[int]bool
+	nfailed int
 	// Reads counts Get/Has calls (diagnostics for bounded-work checks).
 	Reads int
 }
@@ -61,10 +62,25 @@ func (s *Store) FailWrites(from, n int) {
 	}
 }
 
+// ClearFails disarms every scripted failure that has not fired yet.
+func (s *Store) ClearFails() {
+	s.mu.Lock()
+	defer s.mu.Unlock()
+	s.fail = map[int]bool{}
+}
+
+// Failed reports how many scripted failures have fired.
+func (s *Store) Failed() int {
+	s.mu.Lock()
+	defer s.mu.Unlock()
+	return s.nfailed
+}
+
 func (s *Store) attempt() error {
 	i := s.nw
 	s.nw++
 	if s.fail[i] {
+		s.nfailed++
 		return ErrInjected
 	}
 	return nil
